@@ -272,11 +272,13 @@ fn total_key<K: KeyBytes + std::fmt::Debug>(bytes: &[u8]) -> Option<Finding> {
 }
 
 fn check_range(ctx: &mut Ctx, l: usize, s: u64, e: u64) -> Option<Finding> {
-    let key = format!("len{l}");
+    // one key, overwritten for every L: sizes recorded by an earlier value must not leak into the next one
+    let key = "range-key".to_string();
     let data = pattern(l);
-    if !ctx.have_len.contains(&l) {
+    if ctx.have_len.iter().next() != Some(&l) || ctx.have_len.len() != 1 {
         let ch: Vec<&[u8]> = if l == 0 { vec![] } else { vec![&data] };
         real::put_chunks(ctx.cas(), key.clone(), &ch, true).expect("put for range sweep");
+        ctx.have_len.clear();
         ctx.have_len.insert(l);
     }
     let desc = format!("get_range(L={l},{s},{e})");
@@ -308,7 +310,7 @@ fn check_range(ctx: &mut Ctx, l: usize, s: u64, e: u64) -> Option<Finding> {
 
 fn check_size_reader(ctx: &mut Ctx, l: usize) -> Option<Finding> {
     use std::io::Read;
-    let key = format!("len{l}");
+    let key = "range-key".to_string();
     let data = pattern(l);
     let cas = ctx.cas();
     match cas.get_size(&key) {
@@ -627,6 +629,16 @@ pub fn run_sweep(name: &str, tier: &str, chunk: u64, nchunks: u64, res: &mut Wor
                 report(res, name, json!({"L": l, "start": 0, "end": 0, "size_reader": true}), f);
                 res.state(&format!("L{l}"));
             }
+            // shrinking overwrites: revisit a few lengths in reverse order on the same key
+            let mine: Vec<usize> = lens.iter().enumerate().filter(|(li, _)| *li as u64 % nchunks == chunk).map(|(_, l)| *l).collect();
+            for &l in mine.iter().rev() {
+                for (s, e) in [(0u64, l as u64), (0, l as u64 + 2), (1, u64::MAX), (l as u64, l as u64 + 1)] {
+                    let f = check_range(&mut ctx, l, s, e);
+                    report(res, name, json!({"L": l, "start": s, "end": e, "after_longer": true}), f);
+                }
+                let f = check_size_reader(&mut ctx, l);
+                report(res, name, json!({"L": l, "start": 0, "end": 0, "size_reader": true, "after_longer": true}), f);
+            }
             res.completed.push(format!("range: L in {lens:?}; all (start,end) in ({{0..L+2}} for L<=12, boundary points otherwise) ∪ {{2^32,2^32+1,2^63,2^63+1,2^64-2,2^64-1}} squared"));
         }
         "chunking" => {
@@ -809,6 +821,9 @@ pub fn replay(case: &Value) -> Vec<Violation> {
         "range" => {
             let i = &case["input"];
             let l = i["L"].as_u64().unwrap() as usize;
+            // reproduce the overwrite context: a longer and a shorter value were stored under the same key before
+            let _ = check_range(&mut ctx, l + 17, 0, 1);
+            let _ = check_range(&mut ctx, l / 2, 0, 1);
             if i["size_reader"].as_bool() == Some(true) {
                 let _ = check_range(&mut ctx, l, 0, 0);
                 check_size_reader(&mut ctx, l)
